@@ -200,3 +200,26 @@ func (x *ctx) certSpecs() []Spec {
 	}
 	return out
 }
+
+// certBoundarySpecs: the quorum boundaries of the certificate scenario alone: (precommit subset × certificate
+// subset) and (certificate subset × certificate aggregate variant).
+func (x *ctx) certBoundarySpecs() []Spec {
+	c := x.c
+	full := c.fullMask()
+	base := x.honest()
+	base.Scn, base.CertSub = "cert", full
+	var out []Spec
+	for cs := 0; cs <= full; cs++ {
+		for v := 0; v <= full; v++ {
+			s := base
+			s.CertSub, s.Subset = full-cs, full-v
+			out = append(out, s)
+		}
+		for _, a := range aggVals[1:] {
+			s := base
+			s.CertSub, s.Agg = full-cs, a
+			out = append(out, s)
+		}
+	}
+	return out
+}
